@@ -15,7 +15,7 @@ KEYS = ['a', 'b', 'ab', {'b': '61'}, 1, {'f': '1.0'}, {'f': '2.5'}, 0, {'f': '-0
         {'i': str(2 ** 63)}, None, True, {'t': [1, 'x']}, {'pkl': [{'t': [1, 'x']}, 5]}, '', {'b': ''}, 'é ']
 SMALL_VALUES = [0, 1, -7, {'f': '1.5'}, {'f': '-0.0'}, {'f': 'inf'}, 'v', 'text\r\nline', {'b': '0001ff'}, None, True,
                 {'t': [1, None, 'x']}, {'l': [1, 2, 3]}, {'d': [['k', 1]]}, {'i': str(2 ** 70)}, '']
-TAGS = [None, None, 't1', 't2', {'b': '7431'}, 3]
+TAGS = [None, None, 't1', 't2', {'b': '7431'}, 3, 0, '']
 TTLS = [None, None, None, 0, -1, 1e-9, 1, 5, 60, 1e12, -1e12]
 
 
@@ -110,7 +110,7 @@ def gen_prog(rng, n_ops, profile, mfs):
         elif r < 0.73:
             op = {'op': 'clear'}
         elif r < 0.76:
-            op = {'op': 'evict', 'tag': rng.choice(('t1', 't2', 'nope'))}
+            op = {'op': 'evict', 'tag': rng.choice(('t1', 't2', 'nope', 0, '', 3, {'b': '7431'}))}
         elif r < 0.80:
             op = {'op': 'expire'}
         elif r < 0.82:
